@@ -15,7 +15,7 @@ class IsoGen:
         parts = []
         for _ in range(2 + r.below(6)):
             k = r.weighted([('str', 5), ('counter', 4), ('format', 2), ('tofixed_bin', 2), ('global', 3), ('type', 2), ('arr', 2),
-                            ('tofixed_mode', 2), ('line', 1), ('hash', 1)])
+                            ('tofixed_mode', 2), ('line', 1), ('hash', 1), ('eval', 2)])
             self.note('P:' + k)
             if k == 'str':
                 parts.append('diag_log str %s' % r.choice(['1.5', '(10 / 3)', '123456789', '0.1', '[1.25, 2]', '1e-5']))
@@ -36,6 +36,9 @@ class IsoGen:
                 parts.append('private _a = [3, 1, 2]; _a sort true; diag_log str _a')
             elif k == 'line':
                 parts.append('diag_log str __LINE__')
+            elif k == 'eval':
+                # numbers that are printed while the text is preprocessed
+                parts.append(r.choice(['diag_log str __EVAL(2/3)', 'diag_log str (__EVAL(1/4) * 4)', 'diag_log str [__EVAL(10/3), __EVAL(1.23456)]']))
             else:
                 parts.append('private _h = createHashMap; _h set ["k", 1.5]; diag_log str (_h get "k")')
         return ';\n'.join(parts) + ';'
@@ -44,12 +47,15 @@ class IsoGen:
         r = self.r
         parts = []
         for _ in range(1 + r.below(4)):
-            k = r.weighted([('tofixed', 5), ('counter', 4), ('globals', 3), ('reset', 1), ('types', 2), ('error', 1), ('loop', 1)])
+            k = r.weighted([('tofixed', 5), ('counter', 4), ('globals', 3), ('reset', 1), ('types', 2), ('error', 1), ('loop', 1), ('eval_tofixed', 3)])
             self.note('Q:' + k)
             if k == 'tofixed':
                 parts.append('toFixed %d; diag_log str 1.5' % r.below(6))
             elif k == 'counter':
                 parts.append('; '.join(['diag_log str __COUNTER__'] * (1 + r.below(4))))
+            elif k == 'eval_tofixed':
+                # the print mode is set by an expression the preprocessor evaluates (it does not come through execute())
+                parts.append('gq = [__EVAL(toFixed %d)]; diag_log str 1.5' % r.below(4))
             elif k == 'globals':
                 parts.append('ga = %d; gb = "q"' % r.below(9))
             elif k == 'reset':
